@@ -286,7 +286,7 @@ class Runner {
       }
       // watchdog + deadline
       double t = now_s();
-      if (t > a.deadline && !sh_->stop.load()) sh_->stop = 1;
+      if ((t > a.deadline || (phaseDeadline_ > 0 && t > phaseDeadline_)) && !sh_->stop.load()) sh_->stop = 1;
       for (int i = 0; i < W; ++i) {
         if (!pid[i]) continue;
         // The watchdog judges CPU time, not wall time: an overloaded or briefly frozen machine must not
@@ -305,6 +305,7 @@ class Runner {
     }
     uint64_t done = sh_->done.load();
     bool ex = done >= N && !sh_->stop.load();
+    phaseDeadline_ = 0;  // a per-phase limit applies to one phase only
     std::string s = "{\"t\":\"phase\",\"phase\":\"" + jesc(name) + "\",\"N\":" + std::to_string(N) +
                     ",\"done\":" + std::to_string(done) + ",\"exhaustive\":" + (ex ? "true" : "false") +
                     ",\"counters\":{";
@@ -438,6 +439,13 @@ class Runner {
   }
   std::map<std::string, int> slots_;
   bool single_ = false;
+  // Share of the REMAINING run budget that the next phase may use (so that one huge phase cannot starve the ones
+  // behind it); a phase stopped by it reports exhaustive:false like one stopped by the run's deadline.
+  double phaseDeadline_ = 0;
+  void limitNextPhase(double fractionOfRemaining) {
+    double rem = a.deadline - now_s();
+    phaseDeadline_ = (a.deadline < 1e17 && rem > 0) ? now_s() + rem * fractionOfRemaining : 0;
+  }
   size_t setLog2_ = 22;
 
  private:
